@@ -134,6 +134,7 @@ class SimTransport(transports._FlowControlMixin, transports.Transport):
         self.timer = None
         self.held = False
         self.opened_at = loop.time()
+        self.accepted_at = None
         self.closed_at = None
         self.bytes_written = 0
         self.write_log = None  # optional list of (time, nbytes)
@@ -463,6 +464,7 @@ class SimLoop(base_events.BaseEventLoop):
                                     ConnectionResetError(errno.ECONNRESET, "Connection reset by peer"))
                 return
             srv.accepted += 1
+            st.accepted_at = ct.accepted_at = self.time()
             sp = srv.factory()
             st.set_protocol(sp)
             st._accepted = True
